@@ -39,6 +39,8 @@ type source struct {
 	Templates map[string]string `json:"templates,omitempty"`
 	// ExpectLanguage is the flow language the migrated definition must have ("" = not checked)
 	ExpectLanguage string `json:"expect_language,omitempty"`
+	// Comp is set for the compositions of family 7: which instances the flow is made of
+	Comp *compSpec `json:"comp,omitempty"`
 }
 
 // ---- building blocks (the shapes are those of the current spec unless a version says otherwise) ----
